@@ -487,6 +487,7 @@ def check_crc(chk, vecs, wd, thorough, rng):
     from afkak.common import ChecksumError
     records, meta = [], []
     msgs = []
+    n_inner = 0
     for v in vecs:
         if v["kind"] == "msgset":
             off = 0
@@ -542,6 +543,31 @@ def check_crc(chk, vecs, wd, thorough, rng):
                 outcome = "%s:%s" % (oc, val)
             records.append({"msg": list(bytes(m2)), "outcome": outcome})
             meta.append((data, a, ln, bits, outcome))
+        # the same message as an *inner* message of a gzip wrapper whose own checksum is valid (the alteration
+        # happened before compression): the decoder has to verify the inner checksum too.  One unaltered control
+        # (bits = []), single bits and a few of the bursts above.
+        if msg[4] in (0, 1) and (msg[5] & 7) == 0:
+            inner_muts = [[]] + [[p] for p in (range(32, nb) if thorough else rng.sample(range(32, nb), min(8, nb - 32)))]
+            inner_muts += rng.sample(muts, min(len(muts), 40 if thorough else 6))
+            for bits in inner_muts:
+                m2 = bytearray(msg)
+                for b in bits:
+                    m2[b // 8] ^= 0x80 >> (b % 8)
+                inner = data[:a] + bytes(m2) + data[a + ln:]
+                wm = {"magic": msg[4], "attrs": 1, "key": None, "value": kwire.gz(inner)}
+                if wm["magic"] == 1:
+                    wm["ts"] = 0
+                outer = kwire.enc_message_set([(1000, wm)])
+                oc, val = bounded(lambda: consume_msgset(outer, 1000))
+                if oc == "exception" and val == "ChecksumError":
+                    outcome = "checksum"
+                elif oc == "value":
+                    outcome = "delivered:%d" % len(val)
+                else:
+                    outcome = "%s:%s" % (oc, val)
+                records.append({"msg": list(bytes(m2)), "outcome": outcome})
+                meta.append((outer, a, ln, bits, outcome + " (message inside a gzip wrapper, inner set %s)" % inner.hex()))
+                n_inner += 1
     # TLC judges each outcome with the specification's CRC
     traces = [records[i:i + 200] for i in range(0, len(records), 200)]
     cfg = ["SPECIFICATION TSpec", "CONSTRAINT Report", "CHECK_DEADLOCK FALSE"]
@@ -559,6 +585,7 @@ def check_crc(chk, vecs, wd, thorough, rng):
             chk.add_drift(len(r["drift"]), {"crc": "valid message rejected", "at": r["drift"][0]})
         k += len(tr)
     chk.count("C12.crc_detects", len(records))
+    chk.count("C12.crc_detects.inner_of_wrapper", n_inner)
     chk.sample({"family": "crc", "message": bytes(meta[0][0]).hex(), "flipped_bits": meta[0][3], "decoder": meta[0][4]})
     return len(records)
 
